@@ -21,6 +21,7 @@ func checkC14(p *Prog, r *Report) {
 	c14Transfers(p, r)
 	// "otherwise the value in the project's configuration file": the bytes decoded come from the session cache, which must hand out the file of exactly the path asked for (shared with C03.R2c)
 	c03PoolKey(p, r, "C14.R7")
+	c14DependentDefaults(p, r)
 }
 
 func c14Order(p *Prog, r *Report) {
